@@ -250,40 +250,15 @@ def r3_conversions(rep, facts):
 
 
 def r4_placement(rep, facts):
-    R = rep.rule('C08/R4', 'tables without a position print after the preceding positioned table; implicit tables without values are hidden', floor=2)
+    R = rep.rule('C08/R4', 'tables without a position print after the preceding positioned table; a header is written for every table that is not the root and is an array element, '
+                 'explicit, or has rows of its own — implicit tables without rows are hidden, rows are never written without their header (visit_table evaluated, 32 cases)', floor=30)
     d = facts.method('core::fmt::Display', 'toml_edit::document::DocumentMut', 'fmt')
     b = facts.body(d)
     from .shared import position_carry
     okp, detail, pb = position_carry(facts)
     rep.check(R, 'Display for DocumentMut|position-inherited', okp, detail, f'tables are no longer keyed by the last seen position: {detail}', facts.loc(pb))
-    b = facts.body('toml_edit::encode::visit_table')
-    ev = Evaluator(facts)
-    let = None
-    for n in walk(b['body']):
-        if n.get('k') == 'let' and n['pat'].get('k') == 'p_bind' and n['pat']['name'].startswith('is_visible_std_table'):
-            let = n
-
-    def atom(x):
-        if x.get('k') == 'field' and x.get('name') == 'implicit':
-            return 'implicit'
-        if x.get('k') == 'mcall' and x.get('name') == 'is_implicit':
-            return 'implicit'
-        if x.get('k') == 'mcall' and x.get('name') == 'is_empty':
-            return 'no_values'
-        return None
-    ok = False
-    detail = 'predicate not found'
-    if let is not None:
-        try:
-            names, table = truth_table(ev, let['init'], atom)
-            if names == ['implicit', 'no_values']:
-                ok = all(v == (not (i and nv)) for (i, nv), v in table.items())
-                detail = str(table)
-            else:
-                detail = f'atoms {names}'
-        except Unanalysable as e:
-            detail = str(e)
-    rep.check(R, 'visit_table|visibility', ok, 'visible iff !(implicit && no values)', f'header visibility predicate changed: {detail}', facts.loc(b))
+    from .shared import visit_table_model
+    visit_table_model(rep, R, facts)
 
 
 STORE_OPS = {'insert', 'insert_formatted', 'push', 'push_formatted', 'extend'}
